@@ -228,6 +228,17 @@ func genC01(tier string) []Scenario {
 			}
 		}
 	}
+	// larger budgets (5 … 9 attempts: beyond any small fixed-size bookkeeping) for three kinds, with
+	// one prep payload: every failure prefix followed by every kind of success, and all failing
+	if tier != "thorough" {
+		for _, kind := range []int{kBaseFb, kFuncRB, kBareRetry} {
+			for _, n := range []int{5, 6, 9} {
+				sp := &spec{id: "n", kind: kind, n: n, fb: kind != kBareRetry}
+				name := fmt.Sprintf("lifecycle kind=%s N=%d fallback=%v place=%s (larger budgets)", kindNames[kind], n, sp.fb, placeName(placeDirect))
+				out = append(out, lifecycleScenario(name, sp, placeDirect, fullMenu(prepVals[:1])))
+			}
+		}
+	}
 	// the last callback set for a phase is the one that runs: every function-style route with each
 	// phase first given a callback of the other style
 	for _, kind := range []int{kFuncR, kFuncA, kFuncRB, kFuncAB, kFuncMix} {
